@@ -20,7 +20,9 @@ RULE = ("random SimpleTree contents (1-4 categories x 1-4 packages x 1-4 version
         "from names present in the repository. After the queries each first repository goes through a mutation history: "
         "full walk (loads the caches) -> notify_add_package (new name in a known category / new version / new category) or "
         "notify_remove_package -> AlwaysTrue, category, package-glob, atom and and/or queries judged against the harness' "
-        "own record of the new contents. Every query runs through "
+        "own record of the new contents. Each set also gets a spelling case: two repositories storing some spellings of "
+        "one version (1.0/1.00/1.0-r0, 0.06/0.060, 1_alpha/1_alpha0, ...) queried by =, ~ and range atoms in every spelling "
+        "of the group, in particular spellings that are not stored literally. Every query runs through "
         "itermatch (plain, sorter=sorted, reverse sorter, versioned=False with the default and with UnversionedCPV raw "
         "class), match/has_match, multiplex.tree, filtered.tree and caching_repo. Oracle: multiset equality with "
         "[p for p in <all packages enumerated from the generator's dict> if restrict.match(p)]. A case is non-trivial "
@@ -41,7 +43,8 @@ TIMEOUT = {"quick": 240, "thorough": 1100}
 MIN_EVALS = 5000
 REQUIRED_COUNTERS = ("queries_plain", "queries_sorted", "queries_unversioned", "queries_multiplex", "queries_filtered",
                      "queries_positive", "candidate_sets_observed", "answers_partial", "queries_same_category_clauses",
-                     "queries_after_notify", "mutations_add", "mutations_remove")
+                     "queries_after_notify", "mutations_add", "mutations_remove", "queries_version_spellings",
+                     "spelling_queries_equal_version_stored_under_other_spelling")
 
 
 # ---------------------------------------------------------------------------------------------------------
@@ -332,6 +335,24 @@ def run_query(ctx, repos, spec, cp_only):
     return nontrivial
 
 
+def spelling_phase(ctx):
+    """Equal versions under different spellings: '=' / '~' / range atoms spelled one way against repositories that
+    store an equal version spelled another way (judged by the same brute-force oracle, through every access path)."""
+    dicts, atoms, (c, p) = gen.gen_spelling_case(ctx.rng)
+    repos = [Repo(d) for d in dicts]
+    key = json.dumps(dicts, sort_keys=True)
+    for a in atoms:
+        spec = {"k": "atom", "s": a}
+        restrict, _b = specs.build(spec)
+        for repo in repos:
+            stored = repo.cpv_dict.get(c, {}).get(p, [])
+            if a.startswith("=") and a.split("%s/%s-" % (c, p), 1)[1] not in stored and repo.expected(restrict):
+                ctx.count("spelling_queries_equal_version_stored_under_other_spelling")
+                ctx.nontrivial(key + a)
+        run_query(ctx, repos, spec, False)
+        ctx.count("queries_version_spellings")
+
+
 def mutation_phase(ctx, repo, steps=3):
     """Mutation history on one repository: walk it (loads the caches), notify an add/remove, query again; every
     answer is judged against brute force over the harness' own record of the NEW contents."""
@@ -364,7 +385,7 @@ def mutation_phase(ctx, repo, steps=3):
 def run(ctx):
     rng = ctx.rng
     nrepos = ctx.budget(70, 2000)
-    nq = ctx.budget(36, 36)
+    nq = ctx.budget(34, 34)
     for i in range(nrepos):
         dicts = [gen.gen_repo(rng) for _ in range(rng.choice([1, 2, 2, 3]))]
         repos = [Repo(d) for d in dicts]
@@ -394,6 +415,7 @@ def run(ctx):
             if i == 0 and j < 3:
                 ctx.sample({"repos": dicts, "query": spec})
         mutation_phase(ctx, repos[0])
+        spelling_phase(ctx)
         if ctx.out_of_time(ctx.budget(TIMEOUT["quick"] * 0.8 - 50, 15)):
             ctx.note("stopped early by the soft deadline after %d repository sets" % (i + 1))
             break
